@@ -10,6 +10,7 @@ import (
 	"os"
 	"strings"
 	"testing"
+	"time"
 
 	"github.com/dominant-strategies/go-quai/common"
 	"github.com/dominant-strategies/go-quai/core/types"
@@ -168,10 +169,18 @@ func runScenario(m *mon.M, r *rand.Rand, sc scenario) {
 		}
 		return x.observe(mined)
 	}
+	sincePrime := 0
 	for i := 0; i < sc.blocks; i++ {
+		if h := n.Heads()[2]; h != nil && x.idx[h.Hash()] != nil && x.idx[h.Hash()].order == 0 {
+			sincePrime = 0
+		} else {
+			sincePrime++
+		}
 		want := -1
-		if i%6 == 5 {
-			want = 0 // keep prime blocks coming: inbound ETXs arrive after coincident blocks
+		if sincePrime >= 7 {
+			// keep prime blocks coming (inbound ETXs arrive after coincident blocks); after a run of
+			// non-prime blocks the accumulated entropy makes a prime-order seal cheap
+			want = 0
 		}
 		if sc.reorgAt > 0 && i == sc.reorgAt {
 			if !ns.reorg(i, step) {
@@ -201,7 +210,11 @@ func (ns *netState) mine(i int, o hnet.MineOpts) (*hnet.Mined, bool) {
 	if ns.sc.shares > 0 && wo.NumberU64(common.ZONE_CTX) >= 2 {
 		ns.injectShares(wo)
 	}
+	t0 := time.Now()
 	order, err := n.Seal(wo, o.WantOrder, false)
+	if os.Getenv("C13_DEBUG") != "" {
+		fmt.Printf("SEAL %s i=%d want=%d got=%d diff=%v took=%v\n", x.name, i, o.WantOrder, order, wo.Difficulty(), time.Since(t0))
+	}
 	if err != nil {
 		x.m.Inconclusive("seal: " + err.Error())
 		return nil, false
@@ -229,7 +242,7 @@ func (ns *netState) reorg(i int, step func(int, hnet.MineOpts) bool) bool {
 	x, n := ns.x, ns.x.n
 	x.linear = false
 	anc := n.Heads()
-	ka := 5 + x.r.Intn(4)
+	ka := 4 + x.r.Intn(3)
 	for k := 0; k < ka; k++ {
 		if !step(i, hnet.MineOpts{WantOrder: 2}) {
 			return false
@@ -241,7 +254,7 @@ func (ns *netState) reorg(i int, step func(int, hnet.MineOpts) bool) bool {
 		x.m.Violation("switch-to-ancestor-failed", err.Error(), map[string]any{"net": x.name})
 		return false
 	}
-	for k := 0; k < ka+2; k++ {
+	for k := 0; k < ka+1; k++ {
 		if !step(i, hnet.MineOpts{WantOrder: 2}) {
 			return false
 		}
